@@ -121,6 +121,12 @@ class FixedPoint:
             x = table.get(key)
             if x is None:
                 return 'oracle-error', 'unmatched input %s of %s' % (key, text)
+            if x[0] == 'nm' and x[1] in getattr(obs, 'bad_names', ()):
+                # undefined name (fault worlds): the library feeds the error
+                from formulas.tokens.operand import Error
+                args.append(Ranges().push('A1:', np.asarray(
+                    [[Error.errors['#REF!']]], object)))
+                continue
             ref = x if x[0] == 'r' else self.world['names'][x[1]]['t']
             val = obs.rect(ref)
             if val is None:
